@@ -55,6 +55,25 @@ Lemma wf_si_step n s o : wf n s -> op_idx o < n -> wf n (si_step s o).
 Proof. intros Hw Ho. destruct o; simpl in *; [apply wf_append|exact Hw|exact Hw]; assumption. Qed.
 
 (* ---- histories ---- *)
+(* From here to the end of module CiGP every lemma is GENERIC in the IRI comparison (builder b47; see Proofs/EqualP.v and
+   Proofs/CollP.v); after the module the same names are re-established for iri_eqb by instantiation. *)
+Module CiGP.
+Section IdRel.
+  Variable ideq : bytes -> bytes -> bool -> bool.
+  Hypothesis ideq_refl : forall s cs, ideq s s cs = true.
+  Hypothesis ideq_sym : forall a b cs, ideq a b cs = ideq b a cs.
+  Local Notation items_eqb := (CoG.items_eqb ideq).
+  Local Notation iri_member_eqb := (CoG.iri_member_eqb ideq).
+  Local Notation ic_contains := (CoG.ic_contains ideq).
+  Local Notation ic_append := (CoG.ic_append ideq).
+  Local Notation ic_remove := (CoG.ic_remove ideq).
+  Local Notation iris_contains_item := (CoG.iris_contains_item ideq).
+  Local Notation iris_append := (CoG.iris_append ideq).
+  Local Notation c_step := (CoG.c_step ideq).
+  Local Notation c_contains := (CoG.c_contains ideq).
+  Local Notation c_run := (CoG.c_run ideq).
+  Local Notation distinct_pool := (CoGP.distinct_pool ideq).
+
 Section IrisRun.
   Variable pool : list item.
   Let n := length pool.
@@ -64,10 +83,10 @@ Section IrisRun.
 
   (* the pool: no member is nil-like, no member has a nil-like link (empty or "-": IRIs.Contains answers false
      for those, so Append would add them again and again), and IRI.Equals(., ., false) tells the links of
-     distinct members apart (it is reflexive on all strings: IriEqP.iri_eqb_refl) *)
+     distinct members apart (it is reflexive on all strings: IriEqP.ideq_refl) *)
   Hypothesis pool_not_nil : forall i, i < n -> is_nil (pget pool i) = false.
   Hypothesis link_not_nil : forall i, i < n -> is_nil (IIri false (getl i)) = false.
-  Hypothesis eq_links : forall i j, i < n -> j < n -> iri_eqb (getl j) (getl i) false = Nat.eqb i j.
+  Hypothesis eq_links : forall i j, i < n -> j < n -> ideq (getl j) (getl i) false = Nat.eqb i j.
 
   Lemma member_eq : forall i j, i < n -> j < n -> iri_member_eqb (getl i) (getl j) = Nat.eqb i j.
   Proof. intros i j Hi Hj. unfold iri_member_eqb. apply eq_links; assumption. Qed.
@@ -150,7 +169,7 @@ End IrisRun.
 Definition iris_pool (pool : list item) : bool :=
   forallb (fun x => negb (is_nil x) && negb (is_nil (IIri false (lnk x)))) pool &&
   forallb (fun i => forallb (fun j =>
-      Nat.eqb i j || negb (iri_eqb (lnk (pget pool j)) (lnk (pget pool i)) false))
+      Nat.eqb i j || negb (ideq (lnk (pget pool j)) (lnk (pget pool i)) false))
     (seq 0 (length pool))) (seq 0 (length pool)).
 
 Lemma iris_pool_members pool : iris_pool pool = true ->
@@ -165,11 +184,11 @@ Qed.
 
 Lemma iris_pool_eq pool : iris_pool pool = true ->
   forall i j, i < length pool -> j < length pool ->
-  iri_eqb (lnk (pget pool j)) (lnk (pget pool i)) false = Nat.eqb i j.
+  ideq (lnk (pget pool j)) (lnk (pget pool i)) false = Nat.eqb i j.
 Proof.
   intros H i j Hi Hj. unfold iris_pool in H. apply andb_true_iff in H. destruct H as [_ H].
   destruct (Nat.eqb i j) eqn:E.
-  - apply Nat.eqb_eq in E. subst. apply iri_eqb_refl.
+  - apply Nat.eqb_eq in E. subst. apply ideq_refl.
   - rewrite forallb_forall in H. specialize (H i). rewrite in_seq in H.
     specialize (H (conj (Nat.le_0_l _) Hi)). rewrite forallb_forall in H. specialize (H j).
     rewrite in_seq in H. specialize (H (conj (Nat.le_0_l _) Hj)). rewrite E in H. simpl in H.
@@ -208,9 +227,29 @@ Proof.
     apply forallb_forall. intros i Hi. apply forallb_forall. intros j Hj.
     rewrite forallb_forall in H2. specialize (H2 i Hi). rewrite forallb_forall in H2. specialize (H2 j Hj).
     destruct (Nat.eqb i j); [reflexivity|]. simpl in *.
-    apply andb_true_iff in H2. destruct H2 as [F _]. rewrite iri_eqb_sym. exact F.
+    apply andb_true_iff in H2. destruct H2 as [F _]. rewrite ideq_sym. exact F.
 Qed.
 
 (* the sentences of the property on the append-only specification *)
+End IdRel.
+End CiGP.
+
+Notation shown := CiGP.shown.
+Notation iris_pool := (CiGP.iris_pool iri_eqb).
+Definition member_eq := ltac:(inst_co CiGP.member_eq).
+Definition map_lnk_shown := ltac:(inst_co CiGP.map_lnk_shown).
+Definition iris_contains_pool := ltac:(inst_co CiGP.iris_contains_pool).
+Definition iris_contains_link := ltac:(inst_co CiGP.iris_contains_link).
+Definition iris_append_pool := ltac:(inst_co CiGP.iris_append_pool).
+Definition iris_step_spec := ltac:(inst_co CiGP.iris_step_spec).
+Definition iris_contains_spec_run := ltac:(inst_co CiGP.iris_contains_spec_run).
+Definition c_run_cons := ltac:(inst_co CiGP.c_run_cons).
+Definition si_run_cons := ltac:(inst_co CiGP.si_run_cons).
+Definition refines_iris := ltac:(inst_co CiGP.refines_iris).
+Definition iris_pool_members := ltac:(inst_co CiGP.iris_pool_members).
+Definition iris_pool_eq := ltac:(inst_co CiGP.iris_pool_eq).
+Definition refines_iris_pool := ltac:(inst_co CiGP.refines_iris_pool).
+Definition distinct_pool_iris := ltac:(inst_co CiGP.distinct_pool_iris).
+
 Lemma si_step_nodup n s o : wf n s -> op_idx o < n -> NoDup (si_step s o).
 Proof. intros H Ho. exact (proj1 (wf_si_step n s o H Ho)). Qed.
